@@ -65,12 +65,16 @@ pub enum Ctl {
     Rates(Vec<Rate>),
     /// stop reading until resumed (the kernel buffer fills, writes on the slave see EAGAIN)
     Pause(bool),
+    /// close the master side (the slave sees a hang-up); the peer thread ends
+    Close,
 }
 
 pub struct Peer {
     pub received: Arc<Mutex<Vec<u8>>>,
     pub count: Arc<AtomicUsize>,
     pub da_answers: Arc<AtomicUsize>,
+    /// the pause state the peer thread has acted upon (acknowledgement of Ctl::Pause)
+    pub paused_ack: Arc<AtomicBool>,
     closing: Arc<AtomicBool>,
     tx: Sender<Ctl>,
     handle: Option<std::thread::JoinHandle<()>>,
@@ -101,6 +105,8 @@ impl Peer {
         let count = Arc::new(AtomicUsize::new(0));
         let da_answers = Arc::new(AtomicUsize::new(0));
         let closing = Arc::new(AtomicBool::new(false));
+        let paused_ack = Arc::new(AtomicBool::new(false));
+        let pa2 = paused_ack.clone();
         let (tx, rx): (Sender<Ctl>, Receiver<Ctl>) = channel();
         let (r2, c2, d2, cl2) = (received.clone(), count.clone(), da_answers.clone(), closing.clone());
         let handle = std::thread::spawn(move || {
@@ -121,7 +127,11 @@ impl Peer {
                                 k = 0;
                             }
                         }
-                        Ctl::Pause(p) => paused = p,
+                        Ctl::Pause(p) => {
+                            paused = p;
+                            pa2.store(p, Ordering::SeqCst);
+                        }
+                        Ctl::Close => return, // `master` is dropped here
                     }
                 }
                 if paused {
@@ -181,11 +191,20 @@ impl Peer {
                 }
             }
         });
-        Peer { received, count, da_answers, closing, tx, handle: Some(handle) }
+        Peer { received, count, da_answers, paused_ack, closing, tx, handle: Some(handle) }
     }
 
     pub fn ctl(&self, c: Ctl) {
         let _ = self.tx.send(c);
+    }
+
+    /// pause / resume and wait until the peer thread has acted on it (it is then not inside a read)
+    pub fn pause(&self, p: bool) {
+        let _ = self.tx.send(Ctl::Pause(p));
+        let t0 = Instant::now();
+        while self.paused_ack.load(Ordering::SeqCst) != p && t0.elapsed() < Duration::from_secs(2) {
+            std::thread::sleep(Duration::from_micros(100));
+        }
     }
 
     pub fn received_len(&self) -> usize {
